@@ -174,6 +174,39 @@ CHECKS = {
         ref="DESIGN.md 6/C19",
         note=NOTE + "external solves assumed (monitored); shape-family clauses evaluated by the search oracle only.",
         technique="Lean 4 proof of the normalisation / step / alignment algebra, tied by captured-argument comparison of every flow iteration"),
+    "C16": dict(
+        text="PARTIAL. Theorems: the isolated corner is found exactly in the six 1:2 sign patterns; the crossing point lies on the open edge at the "
+             "level value and does not depend on the direction the edge is reached from; within a crossed triangle the segment between the two "
+             "crossing points IS the level set of the linear interpolant (both inclusions); level_length is the sum of these segments; "
+             "level_path stores one point per crossed edge, has the same length, raises ValueError unless the segment graph has exactly two "
+             "end points, orders the points by breadth-first distance — for a simple path exactly the path order with the right triangle per "
+             "segment —, drops points closer than 1e-3 to their successor but never the last; np.interp / resampling keep the end points "
+             "and sample at equal arc length. Compared with the implementation on all families. Assumed: csgraph.shortest_path = BFS distances.",
+        ref="DESIGN.md 6/C16",
+        note=NOTE + "three-fold re-resampling only approximates equal spacing along the original curve; shortest_path contract assumed.",
+        technique="Lean 4 proof (case analysis on sign patterns, barycentric algebra, BFS induction on simple paths) tied by differential driver"),
+    "C17": dict(
+        text="PARTIAL. Theorems relative to an orthonormal eigenbasis from the external eig: c_min <= c_max, mean and Gauss are the symmetric "
+             "functions, u_min/u_max/normal orthonormal, right-handed (triple product 1) and on the side of the vertex normal (degenerate "
+             "exactly when the vertex normal vanishes); curvature_tria's directions are unit, orthogonal and in the triangle plane; the "
+             "anisotropic stiffness form is symmetric, constant-annihilating, PSD for non-negative weights, never above the isotropic energy "
+             "for weights <= 1 (Bessel) and equal to it for weights 1 (Parseval in the plane); exp(-a|c|) in (0,1]. The eig output is "
+             "captured and the post-processing compared with the model vertex by vertex. Monitored: orthonormality of LAPACK's vectors; "
+             "similarity invariance of the values (oracle); sphere/cylinder clauses are shape-family statements, not proved.",
+        ref="DESIGN.md 6/C17",
+        note=NOTE + "tensor assembly (arccos, edge tensors) before the eigen-decomposition is not modelled; LAPACK contract assumed.",
+        technique="Lean 4 proof of the frame post-processing and anisotropic form algebra, tied by captured eigen-decompositions and differential driver"),
+    "C18": dict(
+        text="PARTIAL. Theorems: inverse_stereographic always lands on the unit sphere; both stereographic pairs are mutually inverse (the "
+             "unrepaired final step was the mirror image); Moebius maps preserve cross-ratios and their images are on the sphere; the "
+             "Beltrami coefficient of z -> a z + b conj(z), embedded isometrically anywhere in space, is b/a on every triangle; the "
+             "generalised Laplacian block is symmetric with zero row sums and the landmark elimination gives exact landmarks and the "
+             "original equation at all other rows; Euler guard and landmark count. Building blocks, the captured linear system of "
+             "linear_beltrami_solver and the Moebius step are compared with the model. Monitored, not proved: orientation preservation "
+             "(recorded finding F17 on coarse meshes), optimiser descent.",
+        ref="DESIGN.md 6/C18",
+        note=NOTE + "harmonic / quasi-conformal solves and L-BFGS-B assumed (monitored).",
+        technique="Lean 4 proof (field identities over pairs / Mathlib complex numbers, elimination argument) tied by captured-argument comparison and differential driver"),
 }
 
 NOT_YET = {}
